@@ -601,3 +601,34 @@ inst("vt_calls", "vt", "t_vt_calls()", 16, {"C12": Q, "C13": Q, "C15": Q, "C02":
             ("crate::terminal::Terminal::gc", "crate::terminal::Terminal::kv_log_gc"), ("crate::terminal::Terminal::execute", "crate::terminal::Terminal::kv_log_execute")],
      desc="call structure of Vt::resize / Vt::feed_str / Vt::feed with Terminal's methods replaced by call loggers: resize -> changes -> gc; execute* -> changes -> gc; feed -> execute",
      bounds="any new size 1..9 x 1..9, a two-character string")
+
+# ----------------------------------------------------------------------------- thorough-only: larger geometries
+for row in (0, 1, 2, 3):
+    opt = []
+    if row != 2:
+        opt += PR_OPT_NOSCROLL
+    if row == 2 or row == 3:
+        opt += PR_OPT_NOSTEP
+    prnt(3, 4, row, 1, 2, {"C04": T, "C15": T, "C02": T, "C06": T}, opt=opt, mem=12)
+prnt(4, 3, 2, 0, 2, {"C04": T, "C08": T}, opt=PR_OPT_NOSTEP, mem=12)
+prnt(4, 3, 1, 0, 2, {"C04": T}, opt=PR_OPT_NOSCROLL, mem=12)
+prnt(2, 4, 3, 0, 3, {"C04": T, "C09": T}, sb=2, limit="None", alt=0, opt=PR_OPT_NOSTEP, suffix="_sb2", mem=12)
+for op in ("Su", "Sd", "Il", "Dl", "Lf", "Nel", "Ri"):
+    for row in (0, 1, 2, 3):
+        nm = "sc_%s__3x4_r%d_m12" % (op.lower(), row)
+        if nm in _names:
+            continue
+        scroll(op, 3, 4, row, 1, 2, {"C06": T, "C15": T, "C14": T, "C05": T} if op in ("Lf", "Nel", "Ri") else {"C06": T, "C15": T, "C14": T}, mem=12)
+for op in ("Ed0", "Ed1", "Ed2", "El0", "El1", "El2", "Ech"):
+    erase(op, 4, 3, {"C07": T, "C15": T}, sb=1, alt=2, mem=12, suffix="_full")
+for op in ("Enter1049", "Leave1049"):
+    switch(op, 4, 2, 0 if op.startswith("Enter") else 1, {"C16": T, "C17": T}, suffix="_wide")
+for op in ("Decsc", "Decrc", "Decstr"):
+    ctx(op, 4, 3, {"C17": T})
+for (rows, new, crow, sb) in ((3, 2, 1, 1), (2, 3, 0, 2), (4, 1, 2, 1), (1, 4, 0, 1)):
+    resize_rows(3, rows, new, crow, {"C10": T, "C02": T, "C13": T}, sb=sb, suffix="_w3")
+for (limit, sb, alt, drain) in (("Some(1)", 3, 0, True), ("Some(3)", 5, 0, False), ("Some(10)", 13, 0, True)):
+    kw = dict(sb=sb, alt=alt, limit=limit)
+    inst("gc__1x3_sb%d_l%s_pri_%s" % (sb, limit.replace("Some(", "").replace(")", ""), "drain" if drain else "drop"), "terminal",
+         "t_gc(%s, %s, true)" % (tcfg(1, 3, **kw), "true" if drain else "false"), max(3 + sb, 14) + 3, {"C13": T, "C14": T, "C12": T}, mem=8, timeout=1500,
+         desc="gc() on a 1x3 screen with %d scrollback lines, limit %s" % (sb, limit), bounds=geo_desc(1, 3, **kw), optional_covers=["something is trimmed", "nothing is trimmed"])
